@@ -152,6 +152,7 @@ func init() {
 
 		listenTable := map[string]string{}
 		listenCleanup := []string{}
+		listenHandover := []string{}
 		if fd := c.Func("mcp", "Server", "subscriptionsListen"); fd != nil {
 			for _, st := range fd.Body.List {
 				is, ok := st.(*ast.IfStmt)
@@ -170,7 +171,8 @@ func init() {
 					}
 				}
 			}
-			// the deferred clean-up: which tables, and whether guarded by the request id
+			// the deferred functions: the by-id clean-up (which tables, guarded by the request id), and
+			// the hand-over that runs before it (which table is handed over under which grant)
 			ast.Inspect(fd.Body, func(n ast.Node) bool {
 				ds, ok := n.(*ast.DeferStmt)
 				if !ok {
@@ -178,6 +180,29 @@ func init() {
 				}
 				if fl, ok := ds.Call.Fun.(*ast.FuncLit); ok {
 					src := c.Src(fl.Body)
+					if strings.Contains(src, "s.handOver(") {
+						ast.Inspect(fl.Body, func(m ast.Node) bool {
+							ce, ok := m.(*ast.CallExpr)
+							if !ok || c.Src(ce.Fun) != "s.handOver" || len(ce.Args) != 4 {
+								return true
+							}
+							tn := strings.TrimPrefix(c.Src(ce.Args[0]), "s.")
+							for w, k := range wantKind {
+								if strings.Contains(c.Src(ce.Args[3]), "return l.allowed."+w+" }") && c.Src(ce.Args[1]) == "req.Session" && c.Src(ce.Args[2]) == "stream" {
+									listenHandover = append(listenHandover, "handover:"+k+"->"+tableKind[tn])
+								}
+							}
+							return true
+						})
+						if strings.Contains(src, "slices.DeleteFunc(s.listens[req.Session], func(l *listenStream) bool { return l == stream })") {
+							listenHandover = append(listenHandover, "stream-removed-in-the-same-section")
+						}
+						first, last := c.Src(fl.Body.List[0]), c.Src(fl.Body.List[len(fl.Body.List)-1])
+						if first == "s.mu.Lock()" && last == "s.mu.Unlock()" {
+							listenHandover = append(listenHandover, "lock_pair")
+						}
+						return true
+					}
 					for tn := range tableKind {
 						if strings.Contains(src, tn) {
 							mode := "unconditional"
@@ -207,7 +232,11 @@ func init() {
 				}
 				switch x := st.(type) {
 				case *ast.DeferStmt:
-					seq = append(seq, "defer-cleanup")
+					if strings.Contains(src, "s.handOver(") {
+						seq = append(seq, "defer-handover")
+					} else {
+						seq = append(seq, "defer-cleanup")
+					}
 					continue
 				case *ast.RangeStmt:
 					if c.Src(x.X) == "allowed.ResourceSubscriptions" {
@@ -218,6 +247,9 @@ func init() {
 						}
 						if strings.Contains(b, "defer s.unsubscribe(ctx,") {
 							t += ",defer-unsubscribe"
+						}
+						if strings.Contains(b, "defer s.unsubscribeListen(ctx,") && strings.Contains(b, "}, stream)") {
+							t += ",defer-unsubscribe-by-id"
 						}
 						seq = append(seq, t)
 						continue
@@ -253,6 +285,10 @@ func init() {
 				}
 				switch {
 				case strings.HasPrefix(src, "verifYield("):
+				case strings.HasPrefix(src, "stream := &listenStream{id: requestID, allowed: allowed}"):
+					seq = append(seq, "stream")
+				case src == "s.listens[req.Session] = append(s.listens[req.Session], stream)":
+					seq = append(seq, "record-stream")
 				case src == "s.mu.Lock()":
 					seq = append(seq, "lock")
 				case src == "s.mu.Unlock()":
@@ -274,6 +310,60 @@ func init() {
 		table("mcp/server.go subscriptionsListen: the subscription table written for an admitted kind",
 			"listenTable", "Kind", kinds, listenTable)
 		c.Fact("notify.listen_cleanup", listenCleanup)
+		// handOver: only an entry that carries the id of the stream that ends; the newest OTHER open
+		// stream of the session that was granted the same thing gets it
+		if fd := c.Func("mcp", "Server", "handOver"); fd != nil && len(fd.Body.List) == 3 {
+			if is, ok := fd.Body.List[0].(*ast.IfStmt); ok && is.Init != nil && c.Src(is.Init) == "id, ok := subs[sess]" &&
+				c.Src(is.Cond) == "!ok || id != stream.id" && len(is.Body.List) == 1 && c.Src(is.Body.List[0]) == "return" {
+				listenHandover = append(listenHandover, "handOver:only-if-id-matches")
+			}
+			if c.Src(fd.Body.List[1]) == "open := s.listens[sess]" {
+				if fs, ok := fd.Body.List[2].(*ast.ForStmt); ok && c.Src(fs.Init) == "i := len(open) - 1" && c.Src(fs.Cond) == "i >= 0" && c.Src(fs.Post) == "i--" {
+					listenHandover = append(listenHandover, "handOver:newest-first")
+					if len(fs.Body.List) == 1 {
+						if is, ok := fs.Body.List[0].(*ast.IfStmt); ok && c.Src(is.Cond) == "open[i] != stream && granted(open[i])" &&
+							len(is.Body.List) == 2 && c.Src(is.Body.List[0]) == "subs[sess] = open[i].id" && c.Src(is.Body.List[1]) == "return" {
+							listenHandover = append(listenHandover, "handOver:other-stream-granted->takes-the-entry")
+						}
+					}
+				}
+			}
+		} else {
+			c.Errf("notify: handOver not found (or not of the expected shape)")
+		}
+		// unsubscribeListen: handler, then ONE critical section: hand-over under the URI grant, delete by id
+		if fd := c.Func("mcp", "Server", "unsubscribeListen"); fd != nil {
+			useq := []string{}
+			for _, st := range fd.Body.List {
+				src := c.Src(st)
+				switch {
+				case strings.HasPrefix(src, "if s.opts.UnsubscribeHandler != nil {"):
+					useq = append(useq, "handler")
+				case src == "uri := req.Params.URI":
+				case src == "s.mu.Lock()":
+					useq = append(useq, "lock")
+				case src == "defer s.mu.Unlock()":
+					useq = append(useq, "defer-unlock")
+				case src == "subs := s.resourceSubscriptions[uri]":
+					useq = append(useq, "lookup-uri")
+				case strings.HasPrefix(src, "if subs == nil {"):
+				case strings.HasPrefix(src, "s.handOver(subs, req.Session, stream, func(l *listenStream) bool {") && strings.Contains(src, "return slices.Contains(l.allowed.ResourceSubscriptions, uri)"):
+					useq = append(useq, "handover:uri")
+				case strings.HasPrefix(src, "if id, ok := subs[req.Session]; ok && id == stream.id {") && strings.Contains(src, "delete(subs, req.Session)"):
+					useq = append(useq, "delete-if-id-matches")
+				default:
+					if len(src) > 60 {
+						src = src[:60]
+					}
+					useq = append(useq, "other:"+src)
+				}
+			}
+			listenHandover = append(listenHandover, "unsubscribeListen:"+strings.Join(useq, ","))
+		} else {
+			c.Errf("notify: unsubscribeListen not found")
+		}
+		sort.Strings(listenHandover)
+		c.Fact("notify.listen_handover", listenHandover)
 
 		// ---- subsTable: notifySessions
 		subsTable := map[string]string{}
@@ -302,6 +392,10 @@ func init() {
 				switch {
 				case strings.HasPrefix(src, "verifYield("):
 					// the add-only hook (fixes/hook-notify-yield.patch); not part of the shape
+				case strings.HasPrefix(src, "stream := &listenStream{id: requestID, allowed: allowed}"):
+					seq = append(seq, "stream")
+				case src == "s.listens[req.Session] = append(s.listens[req.Session], stream)":
+					seq = append(seq, "record-stream")
 				case src == "s.mu.Lock()":
 					seq = append(seq, "lock")
 				case src == "s.mu.Unlock()":
@@ -350,6 +444,10 @@ func init() {
 			for _, st := range fd.Body.List {
 				src := c.Src(st)
 				switch {
+				case strings.HasPrefix(src, "stream := &listenStream{id: requestID, allowed: allowed}"):
+					seq = append(seq, "stream")
+				case src == "s.listens[req.Session] = append(s.listens[req.Session], stream)":
+					seq = append(seq, "record-stream")
 				case src == "s.mu.Lock()":
 					seq = append(seq, "lock")
 				case src == "s.mu.Unlock()":
